@@ -337,3 +337,33 @@ package gostatsd
 //@   loop 1 invariant forall i int, n string :: 0 <= i && i < len(mms) ==> (n in mms[i].Counters) == old(n in mms[i].Counters) && mms[i].Counters[n] == old(mms[i].Counters[n]) && (n in mms[i].Gauges) == old(n in mms[i].Gauges) && mms[i].Gauges[n] == old(mms[i].Gauges[n])
 //@   loop 1 invariant forall i int, n string :: 0 <= i && i < len(mms) ==> (n in mms[i].Timers) == old(n in mms[i].Timers) && mms[i].Timers[n] == old(mms[i].Timers[n]) && (n in mms[i].Sets) == old(n in mms[i].Sets) && mms[i].Sets[n] == old(mms[i].Sets[n])
 //@   modifies everything
+
+// ---- enrichment of one item (C11, C19) ---------------------------------------------------------------------
+// concatTags(r, a, b): r is a fresh list holding the tags of a followed by those of b
+//@ pred concatTags(r Tags, a Tags, b Tags) := len(r) == len(a) + len(b) && (forall i int :: 0 <= i && i < len(a) ==> r[i] == a[i]) && (forall j int :: 0 <= j && j < len(b) ==> r[len(a) + j] == b[j])
+
+//@ func (Tags).Concat
+//@   ensures  len(result) == len(tags) + len(additional) && fresh(base(result))
+//@   ensures  forall k int :: 0 <= k && k < len(tags) ==> at(result, off(result) + k) == old(at(tags, off(tags) + k))
+//@   ensures  forall k int :: 0 <= k && k < len(additional) ==> at(result, off(result) + len(tags) + k) == old(at(additional, off(additional) + k))
+
+//@ func (*Counter).AddTagsSetSource
+//@   requires c != nil
+//@   ensures  c.Source == newSource && len(c.Tags) == old(len(c.Tags)) + len(additionalTags) && c.Value == old(c.Value) && c.Timestamp == old(c.Timestamp)
+//@   modifies c.Tags, c.Source
+//@ func (*Gauge).AddTagsSetSource
+//@   requires g != nil
+//@   ensures  g.Source == newSource && len(g.Tags) == old(len(g.Tags)) + len(additionalTags) && g.Value == old(g.Value) && g.Timestamp == old(g.Timestamp)
+//@   modifies g.Tags, g.Source
+//@ func (*Timer).AddTagsSetSource
+//@   requires t != nil
+//@   ensures  t.Source == newSource && len(t.Tags) == old(len(t.Tags)) + len(additionalTags) && t.Values == old(t.Values) && t.SampledCount == old(t.SampledCount) && t.Timestamp == old(t.Timestamp)
+//@   modifies t.Tags, t.Source
+//@ func (*Set).AddTagsSetSource
+//@   requires s != nil
+//@   ensures  s.Source == newSource && len(s.Tags) == old(len(s.Tags)) + len(additionalTags) && s.Values == old(s.Values) && s.Timestamp == old(s.Timestamp)
+//@   modifies s.Tags, s.Source
+//@ func (*Event).AddTagsSetSource
+//@   requires e != nil
+//@   ensures  e.Source == newSource && len(e.Tags) == old(len(e.Tags)) + len(additionalTags) && e.Title == old(e.Title) && e.Text == old(e.Text) && e.DateHappened == old(e.DateHappened) && e.AggregationKey == old(e.AggregationKey) && e.SourceTypeName == old(e.SourceTypeName) && e.Priority == old(e.Priority) && e.AlertType == old(e.AlertType)
+//@   modifies e.Tags, e.Source
